@@ -157,7 +157,7 @@ class Flow:
     _s_AsyncFunctionDef = _s_FunctionDef
     _s_ClassDef = _s_FunctionDef
 
-    split_return_ifexp = False  # opt-in: `return A if T else B` is walked as `if T: return A` / `else: return B`
+    split_return_ifexp = True  # default; opt-out where a rule reads the conditional expression itself: `return A if T else B` is walked as `if T: return A` / `else: return B`
 
     def _s_Return(self, s, states):
         if self.split_return_ifexp and isinstance(s.value, ast.IfExp):
